@@ -8,7 +8,10 @@
 // size(), data()==nullptr, every element by iteration, operator[], at(), begin/end/cbegin/cend.
 // A non-owning ArrayView whose source container has been destroyed/replaced is legitimately
 // dangling; it is recognised by (source, generation) bookkeeping and printed as [stale] without
-// touching the memory.  All other reads go to memory, so under ASan a dangling base pointer aborts.
+// touching the memory.  An ArrayView aimed at a WRAPPER's storage (pw / rw operations) is recognised as
+// dangling by asking ASan whether its range is poisoned (freed, or beyond the vector's size: the harness is
+// built with _GLIBCXX_SANITIZE_VECTOR).  All other reads go to memory, so under ASan a dangling base pointer
+// of an owning wrapper aborts.
 #include <array>
 #include <cstdint>
 #include <cstring>
@@ -18,6 +21,7 @@
 #include <stdexcept>
 #include <string>
 #include <vector>
+#include <sanitizer/asan_interface.h>
 #include "rkcommon/utility/AbstractArray.h"
 #include "rkcommon/utility/ArrayView.h"
 #include "rkcommon/utility/DataView.h"
@@ -174,7 +178,7 @@ struct Slot
   OwnedArray<T> *o{nullptr};
   std::shared_ptr<FixedArray<T>> f;
   FixedArrayView<T> *w{nullptr};
-  int vk{-1}, vgen{0};  // V: which source (and which generation of it) the view was aimed at
+  int vk{-1}, vgen{0};  // V: which source (and which generation of it) the view was aimed at; -2: a wrapper's storage
   AbstractArray<T> *base()
   {
     switch (kind) {
@@ -207,7 +211,10 @@ struct Machine
 
   bool stale(Slot<T> &s)
   {
-    return s.kind == 'V' && s.v->size() > 0 && s.vk >= 0 && (!src[s.vk].alive() || src[s.vk].gen != s.vgen);
+    if (s.kind != 'V' || s.v->size() == 0) return false;
+    if (s.vk >= 0) return !src[s.vk].alive() || src[s.vk].gen != s.vgen;
+    if (s.vk == -2) return __asan_region_is_poisoned(s.v->data(), s.v->size() * sizeof(T)) != nullptr;
+    return false;
   }
 
   // everything the property talks about, read from the real object
@@ -277,6 +284,15 @@ struct Machine
     long kk = std::stol(k);
     if (!liveSrc(kk) || off < 0 || n < 0 || (size_t)(off + n) > src[kk].size()) return false;
     p = src[kk].data() + off; vk = (int)kk;
+    return true;
+  }
+
+  // resolve a (data, n) argument taken from wrapper j: w_j.data() + off
+  bool resolveWrap(long j, long off, long n, T *&p, int &vk, int &vgen)
+  {
+    if (!used(j) || stale(sl[j]) || off < 0 || n < 0 || (size_t)(off + n) > sl[j].base()->size()) return false;
+    p = sl[j].base()->data() + off;
+    if (sl[j].kind == 'V') { vk = sl[j].vk; vgen = sl[j].vgen; } else { vk = -2; vgen = 0; }
     return true;
   }
 
@@ -362,6 +378,30 @@ struct Machine
       case 'F': s.f = std::make_shared<FixedArray<T>>(p, n); break;
       }
       return true;
+    }
+    if (op == "pw") {
+      long i = L(1);
+      char kd = f[2][0];
+      T *p; int vk, vgen;
+      if (!resolveWrap(L(3), L(4), L(5), p, vk, vgen) || !freeSlot(i) || kd == 'W') return false;
+      size_t n = (size_t)L(5);
+      Slot<T> &s = sl[i];
+      s.kind = kd;
+      switch (kd) {
+      case 'V': s.v = new ArrayView<T>(p, n); s.vk = vk; s.vgen = vgen; break;
+      case 'O': s.o = new OwnedArray<T>(p, n); break;
+      case 'F': s.f = std::make_shared<FixedArray<T>>(p, n); break;
+      }
+      return true;
+    }
+    if (op == "rw") {
+      long i = L(1);
+      T *p; int vk, vgen;
+      if (!resolveWrap(L(2), L(3), L(4), p, vk, vgen) || !used(i)) return false;
+      size_t n = (size_t)L(4);
+      if (sl[i].kind == 'V') { sl[i].v->reset(p, n); sl[i].vk = vk; sl[i].vgen = vgen; return true; }
+      if (sl[i].kind == 'O') { sl[i].o->reset(p, n); return true; }
+      return false;
     }
     if (op == "fixn") {
       long i = L(1);
